@@ -157,6 +157,31 @@ pub fn generate(args: &Args, rng: &mut Rng, out: &mut Streams, dist: &mut Dist) 
       emit(out, dist, kind, &s);
     }
   }
+  // 1b. exhaustive small scope (`--exhaustive L`, default 0 = off; done once, by shard 0):
+  // every string of length <= L over a small alphabet per parser
+  let exh: usize = args.get("exhaustive").map(|v| v.parse().unwrap()).unwrap_or(0);
+  if exh > 0 {
+    let alphabets: [(&str, &[char]); 3] = [
+      ("rune", &['A', 'B', 'Z', 'a', '.']),
+      ("spaced", &['A', 'Z', '.', '•', 'a']),
+      ("id", &['0', '1', '9', '+', '-', ':']),
+    ];
+    for (kind, alpha) in alphabets {
+      let k = alpha.len();
+      for len in 0..=exh {
+        let total = k.pow(len as u32);
+        for mut x in 0..total {
+          let mut s = String::with_capacity(len * 3);
+          for _ in 0..len {
+            s.push(alpha[x % k]);
+            x /= k;
+          }
+          emit(out, dist, kind, &s);
+        }
+      }
+      dist.add(&format!("exhaustive_{kind}"), (0..=exh).map(|l| k.pow(l as u32) as u64).sum());
+    }
+  }
   // 2. random
   for _ in 0..args.cases {
     let kind = rng.below(3) as usize;
